@@ -805,5 +805,20 @@ def rule_spanorder(ctx):
     return r
 
 
+def _shared_rules():
+    """The tracker charges the hypergraph's pair cost per step: it equals the exact flops only if every involved index is counted once."""
+    out = []
+
+    def _mk(src_mod="c18", fn="rule_flops", old="C18-FLOPS", new="C20-PAIRCOST", mn=2):
+        def rule(ctx):
+            import importlib
+            srcf = getattr(importlib.import_module("sa.rules." + src_mod), fn)
+            return C.reuse_rule(ctx, srcf, old, new, "shared clause of " + old + " (also a necessary condition here)", lambda i: True, mn)
+        rule.__name__ = "shared_" + new.lower().replace("-", "_")
+        return rule
+    out.append(_mk())
+    return out
+
+
 RULES = [rule_spanorder, rule_ledger, rule_cap, rule_sizewrites, rule_own, rule_siblings, rule_samecap, rule_topo, rule_range, rule_steps, rule_surv,
-         rule_freshstats, rule_reset]
+         rule_freshstats, rule_reset] + _shared_rules()
